@@ -147,12 +147,23 @@ func (cs ClientState) Initialize(ctx sdk.Context, _ codec.BinaryCodec, clientSto
 	return nil
 }
 
+// UpgradeState will check that the upgraded consensus state is a Tendermint consensus state
+// and will store ProcessedTime for it as ctx.BlockTime(), as Initialize does
 func (cs ClientState) UpgradeState(
 	ctx sdk.Context,
 	cdc codec.BinaryCodec,
 	store sdk.KVStore,
 	state exported.ConsensusState,
 ) error {
+	if _, ok := state.(*ConsensusState); !ok {
+		return sdkerrors.Wrapf(
+			clienttypes.ErrInvalidConsensus,
+			"invalid upgraded consensus state. expected type: %T, got: %T",
+			&ConsensusState{}, state,
+		)
+	}
+	// set processed time with upgraded consensus state height equal to the upgraded client state's latest height
+	setConsensusMetadata(ctx, store, cs.GetLatestHeight())
 	return nil
 }
 
